@@ -262,6 +262,23 @@ class BTSCameraData:
         f64.bwrite(file, self.y_distortion_coefficients)  # y_distortion_coefficients
         self.view_port.bwrite(file)  # view_port
 
+    def __eq__(self, o: object) -> bool:
+        if not isinstance(o, BTSCameraData):
+            return False
+        return (
+            np.array_equal(self.rotation_matrix, o.rotation_matrix)
+            and np.array_equal(self.translation_vector, o.translation_vector)
+            and np.array_equal(self.focus, o.focus)
+            and np.array_equal(self.optical_center, o.optical_center)
+            and np.array_equal(
+                self.x_distortion_coefficients, o.x_distortion_coefficients
+            )
+            and np.array_equal(
+                self.y_distortion_coefficients, o.y_distortion_coefficients
+            )
+            and self.view_port == o.view_port
+        )
+
     @property
     def nBytes(self) -> int:
         return (
